@@ -79,7 +79,7 @@ def tables(ctx):
         return tb
     tb = {"op2": {}, "op4": {}}
     for what, rel, cls, q in (("op2", OP2, "OP2", "OP2._op2open"), ("op4", OP4, "OP4", "OP4._op4open_read")):
-        fn = ctx.src.func(rel, q)
+        fn = ctx.src.func(rel, C.resolve_method(ctx, rel, q))
         for bits in (32, 64):
             pinned = {"self._endian": F.sym("self._endian")}
             if what == "op2":
@@ -96,9 +96,87 @@ def tables(ctx):
             except Exception as e:  # noqa  (never a crash: the set-up function cannot be lowered)
                 raise Unsupported(f"{q}: the evaluator failed on the set-up of the format attributes ({type(e).__name__}: {e})")
             tb[what][bits] = {k: v for k, v in w.ev.env.items() if k.startswith("self.")}
+            if what == "op4":
+                tb[what][bits]["self._bit64"] = F.const(int(bits == 64))        # (the flag the oracle decided for this table)
+            # the name the rules give to the width of a key / word, when the object has no attribute of that name
+            tb[what][bits].setdefault(C.sym_name(WORD[what]), F.const(bits // 8))
     tb["fn"] = {"op2": ctx.src.func(OP2, "OP2._op2open"), "op4": ctx.src.func(OP4, "OP4._op4open_read")}
     ctx._c11_tables = tb
     return tb
+
+
+WORD = {"op2": F.sym("self._ibytes"), "op4": F.sym("self._bytes_i")}     # the name the rules give to the size of a key / word in bytes
+
+
+class SizeModel:
+    """Sizes that depend on the key width, in one form.  The two format tables (4- and 8-byte keys) give every size a pair of integers
+    (n4, n8); any such pair is an affine function a + b * W of the word size W (b = (n8 - n4) / 4).  The walks of the readers are given
+    * every attribute of the object whose value is an integer that differs between the two tables, and the `.size` of every attribute that
+      holds a struct, pre-bound to that affine form in W (so `self._Str.size`, `self._fbytes`, an attribute under any other name, or a
+      property computed from them all read `W`);
+    * `struct_size(format value)`: the size of a struct built on the spot (struct.Struct(f).size, struct.calcsize(f)).
+    W itself is the symbol the rules use for the width (WORD[what]); nothing depends on what the attribute that holds it is called."""
+
+    def __init__(self, ctx, what):
+        self.what = what
+        self.W = WORD[what]
+        tbs = tables(ctx)[what]
+        self.tb4, self.tb8 = tbs[32], tbs[64]
+
+    def affine(self, n4, n8):
+        if not isinstance(n4, int) or not isinstance(n8, int) or isinstance(n4, bool) or (n8 - n4) % 4:
+            return None
+        b = (n8 - n4) // 4
+        return F.const(n4 - 4 * b) + b * self.W
+
+    def _pair(self, f):
+        try:
+            a, b = f(self.tb4), f(self.tb8)
+        except Unsupported:
+            return None
+        if a is None or b is None or is_unknown(a) or is_unknown(b) or not a.is_const() or not b.is_const() \
+                or a.const_value().denominator != 1 or b.const_value().denominator != 1:
+            return None
+        return self.affine(int(a.const_value()), int(b.const_value()))
+
+    def struct_size(self, fmtv):
+        """size in bytes of the struct of format `fmtv` (a value of the walk: it may refer to attributes of the tables)"""
+        return self._pair(lambda tb: struct_size(strval(fmtv, tb)))
+
+    def env(self):
+        out = {}
+        for nm in sorted(set(self.tb4) & set(self.tb8)):
+            v4, v8 = self.tb4[nm], self.tb8[nm]
+            if nm == C.sym_name(self.W):
+                continue
+            x4, x8 = pyval(v4, self.tb4), pyval(v8, self.tb8)
+            if isinstance(x4, int) and isinstance(x8, int) and not isinstance(x4, bool) and x4 != x8:
+                a = self.affine(x4, x8)
+                if a is not None:
+                    out[nm] = a
+            if isinstance(x4, str) and isinstance(x8, str):
+                s4, s8 = struct_size(x4), struct_size(x8)
+                if s4 is not None and s8 is not None and s4.is_const() and s8.is_const() and _is_struct_value(v4):
+                    a = self.affine(int(s4.const_value()), int(s8.const_value()))
+                    if a is not None:
+                        out[nm + ".size"] = a
+        # the width itself under another name: an attribute worth (4, 8) when the rules' name is not an attribute of the object
+        return out
+
+
+def _is_struct_value(v):
+    p = C.fn_parts(v) if v is not None and not is_unknown(v) and not isinstance(v, tuple) and hasattr(v, "is_const") else None
+    return p is not None and p[0] in ("call:struct.Struct", "call:Struct")
+
+
+def size_model(ctx, what):
+    cache = ctx.__dict__.setdefault("_c11_sizemodels", {})
+    if what not in cache:
+        try:
+            cache[what] = SizeModel(ctx, what)
+        except Unsupported:
+            cache[what] = None
+    return cache[what]
 
 
 def strval(v, tb, depth=0):
@@ -236,6 +314,8 @@ def numval(v, tb):
                 return struct_size(strval(args[0], tb))
             return None
         out = C.rewrite(out, post=post)
+    if mp and any(d[0] == "fn" and d[1] == "phi" for d in C.walk_atoms(out)):
+        out = C.settle(out)          # selections on a flag of the table are taken
     return out
 
 
